@@ -389,13 +389,16 @@ func findObject(pd *container, path string) (container, string) {
 }
 
 func (d *partialDoc) set(key string, val *lazyNode) error {
+	if *d == nil {
+		// the document is null, not an object
+		return ErrInvalid
+	}
 	(*d)[key] = val
 	return nil
 }
 
 func (d *partialDoc) add(key string, val *lazyNode) error {
-	(*d)[key] = val
-	return nil
+	return d.set(key, val)
 }
 
 func (d *partialDoc) get(key string) (*lazyNode, error) {
